@@ -452,7 +452,8 @@ pub struct AggGenCfg {
     pub allow_empty: bool,
     pub allow_arith_args: bool,
     pub allow_distinct: bool,
-    pub big_tables: bool,
+    /// 0 = never; n = one table in n has 1000-3000 rows (needed to fill SIMD batches of 1024 values)
+    pub big_tables: u32,
     /// DOUBLE values restricted to multiples of 0.5 in [-64, 64]: sums and products of such
     /// values are exact even in f32 (used while the f32-precision findings are open)
     pub exact_floats: bool,
@@ -492,7 +493,8 @@ pub fn gen_table(t: &mut Tape, c: &AggGenCfg) -> ATable {
         cols.push((["a", "b", "c", "d", "e"][i].to_string(), ty));
     }
     let dens: Vec<u32> = cols.iter().map(|_| if c.allow_nulls { *t.pick(&[0u32, 2, 6, 10, 0, 2]) } else { 0 }).collect();
-    let nr = match t.weighted(&[8, if c.allow_empty { 1 } else { 0 }, 1, if c.big_tables { 2 } else { 0 }]) {
+    let big = c.big_tables > 0 && t.chance(1, c.big_tables);
+    let nr = match if big { 3 } else { t.weighted(&[8, if c.allow_empty { 1 } else { 0 }, 1]) } {
         0 => t.range(2, c.max_rows.max(2) as i64) as usize,
         1 => 0,
         2 => 1,
